@@ -233,9 +233,17 @@ def selfcheck(prop, obd, fn, inputs, rdir):
         ok = got["exc"] == (out.get("exception") or "").split("@")[0]
         return dict(ok=ok if ok else None, why=f"symbolic raised {got['exc']}, concrete raised {out.get('exception')}", n=0)
     a, b = got["obs"], out.get("observations", [])
+    # a coarser round_value in the obligation (0, 1, 2 decimals): the pinned run rounds exact rationals, the real run
+    # rounds doubles - at a tie (x.05 -> 1 decimal) they may legitimately land one unit apart
+    global _SV_EXTRA_TOL
+    rvs = [int(m) for m in re.findall(r"round_value['\"]?\s*[:=]\s*(\d+)", json.dumps(obd["params"]))] + ([obd["params"]["rv"]] if isinstance(obd["params"].get("rv"), int) else [])
+    _SV_EXTRA_TOL = max([1.01 * 10 ** (-rv) for rv in rvs if rv < 4] or [0.0])
     bad = _cmp_obs(a, b)
     sym_fail = sorted({l for l in col.reproduced} | {l for l in col.candidates})
     return dict(ok=bad is None, why=bad, n=_count_leaves(a), concrete_failures=[l for l, _ in out.get("failures", [])], pinned_failures=sym_fail)
+
+
+_SV_EXTRA_TOL = 0.0
 
 
 def _count_leaves(x):
@@ -267,7 +275,7 @@ def _cmp_obs(a, b, path=""):
         return None if a == b else f"{path}: symbolic {a!r} vs concrete {b!r}"
     if isinstance(a, (int, float)) and isinstance(b, (int, float)):
         # helper series are rounded to 4 decimals inside the library and running updates drift: allow it
-        tol = 1e-6 * max(1.0, abs(a), abs(b)) + 2e-3
+        tol = 1e-6 * max(1.0, abs(a), abs(b)) + 2e-3 + _SV_EXTRA_TOL
         return None if abs(a - b) <= tol else f"{path}: symbolic {a!r} vs concrete {b!r}"
     return None if a == b else f"{path}: symbolic {a!r} vs concrete {b!r}"
 
